@@ -2,6 +2,7 @@ import AvroModel.Lemmas.NoPanic
 import AvroModel.Lemmas.Terminates
 import AvroModel.Lemmas.WriteStable
 import AvroModel.Props.C18
+import AvroModel.Props.C05
 /-!
 # C06 — Malformed input yields errors, never panics, hangs or runaway allocation
 
@@ -198,5 +199,40 @@ example (m : Nat) (h : 9 ≤ m) :
   have := write_budget env (.record [] [.array (.int 64 false) false] [some 0]) (.struct [.slice [.int 1, .int 2]]) m
   simp only [Codec.sz, Codec.szList, GoVal.sz, GoVal.szList, Nat.zero_add, Nat.add_zero, Nat.reduceAdd] at this
   exact this h
+
+/-- **C06 for the decoders the library builds** (composition with C05): a decoder built for a Go type `T`
+from any schema, run on ANY bytes into a destination of type `T`, halts, and what it returns is either a
+value of type `T` together with unread input no longer than the input, or an error — never a panic, never
+a wrongly-shaped destination, never "out of budget" from some budget on. -/
+theorem built_decoder_result (hs : env.Sane) (reg : Reg) (hlib : reg.lib = true) (hreg : ∀ id, reg.custom id = none)
+    (nb : Nat) (s : Schema) (T : GoType) (oe : Bool) (c : Codec) (hwf : T.wf = true)
+    (hb : buildCodec reg nb s (some T) oe = .ok c) (hal : allocOK c = true)
+    (bs : Bytes) (dst : GoVal) (hd : HasType dst T = true) :
+    ∃ n, ∀ m, n ≤ m →
+      (∃ g rest, read env m c bs dst = .ok (g, rest) ∧ rest.length ≤ bs.length ∧ HasType g T = true) ∨
+      read env m c bs dst = .err := by
+  obtain ⟨n, h⟩ := read_result env hs c bs dst
+  refine ⟨n, fun m hm => ?_⟩
+  have ht := C05.decode_stays_typed reg hlib hreg nb s T oe c hwf hb hal env m bs dst hd
+  rcases h m hm with ⟨g, rest, hr, hl⟩ | he | hst
+  · exact Or.inl ⟨g, rest, hr, hl, ht.2 g rest hr⟩
+  · exact Or.inr he
+  · exact absurd hst ht.1
+
+/-- non-vacuity: the record type of C05's example (int16 field, skipped field, `*[]int32`), the library
+registry, a sane environment, any bytes -/
+example (bs : Bytes) : ∃ c, buildCodec regLib 10 C05.exS (some C05.exT) false = .ok c ∧
+    ∃ n, ∀ m, n ≤ m →
+      (∃ g rest, read envVarint m c bs (zeroVal C05.exT) = .ok (g, rest) ∧ rest.length ≤ bs.length ∧ HasType g C05.exT = true) ∨
+      read envVarint m c bs (zeroVal C05.exT) = .err := by
+  have hb : ∃ c, buildCodec regLib 10 C05.exS (some C05.exT) false = .ok c ∧ allocOK c = true := by
+    cases h : buildCodec regLib 10 C05.exS (some C05.exT) false with
+    | error e => have : (match buildCodec regLib 10 C05.exS (some C05.exT) false with | .ok c => allocOK c && wt c C05.exT | _ => false) = true := by decide +kernel
+                 rw [h] at this; cases this
+    | ok c => have : (match buildCodec regLib 10 C05.exS (some C05.exT) false with | .ok c => allocOK c && wt c C05.exT | _ => false) = true := by decide +kernel
+              rw [h] at this; simp only [Bool.and_eq_true] at this; exact ⟨c, rfl, this.1⟩
+  obtain ⟨c, hc, hal⟩ := hb
+  exact ⟨c, hc, built_decoder_result envVarint envVarint_sane regLib (by decide +kernel) (fun _ => rfl) 10 C05.exS C05.exT false c
+    (by decide +kernel) hc hal bs (zeroVal C05.exT) (C05.zero_hasType C05.exT)⟩
 
 end Avro.C06
